@@ -930,7 +930,54 @@ def releases_ir(rng):
     return ir
 
 
+def recycle_ir(rng):
+    """Directed programs for measured-qubit refusal around index recycling: an object owning several qubits
+    dies, its indices are handed to new declarations one by one; one of them is measured, others are
+    declared and used, then the measured one is touched again (with or without a reset in between)."""
+    ir = [dict(k="ops")]
+    uid = [0]
+
+    def fresh(p):
+        uid[0] += 1
+        return "%s%d" % (p, uid[0])
+    cls = rng.choice(["H1", "HA", "HP", "H1S", "H1"])
+    o = fresh("o")
+    ir.append(dict(k="new", name=o, cls=cls, via="new"))
+    if rng.random() < 0.5:
+        fld = {"H1": ("f", o, "q"), "H1S": ("f", o, "q"), "HA": ("fe", o, "ta", 1), "HP": ("f", o, "mq")}[cls]
+        ir.append(dict(k="gate", g="x", via="direct", qs=[fld], theta=None))
+        if rng.random() < 0.5:
+            ir.append(dict(k="measure", q=fld, form="stmt", bit=None))
+    if rng.random() < 0.3:
+        keep = fresh("kp")
+        ir.append(dict(k="decl", name=keep, n=None, tracked=False))
+    ir.append(dict(k="destroy", name=o))
+    names = []
+    for i in range(rng.randint(2, 3)):
+        v = fresh("a")
+        names.append(v)
+        ir.append(dict(k="decl", name=v, n=None, tracked=rng.random() < 0.3))
+        if i == 0 or rng.random() < 0.4:
+            if rng.random() < 0.6:
+                ir.append(dict(k="gate", g="x", via=rng.choice(["direct", "func"]), qs=[("v", v)], theta=None))
+            ir.append(dict(k="measure", q=("v", v), form=rng.choice(["stmt", "expr", "qfunc"]), bit=None))
+            if ir[-1]["form"] != "stmt":
+                ir[-1]["bit"] = fresh("b")
+        else:
+            ir.append(dict(k="gate", g=rng.choice(["h", "x"]), via="direct", qs=[("v", v)], theta=None))
+    for v in rng.sample(names, len(names)):
+        if rng.random() < 0.3:
+            ir.append(dict(k="reset", q=("v", v), via="direct"))
+        g = rng.choice(["h", "x", "z"])
+        ir.append(dict(k="gate", g=g, via=rng.choice(["direct", "func"] + (["method"] if g != "z" else [])),
+                       qs=[("v", v)], theta=None))
+    return ir
+
+
 def generate(rng, profile, length=None, shots_annotation=None, max_qubits=6):
+    if profile == "recycle":
+        ir = recycle_ir(rng)
+        return ir, Renderer(shots_annotation).render(ir)
     if profile == "releases":
         ir = releases_ir(rng)
         return ir, Renderer(shots_annotation).render(ir)
@@ -1126,7 +1173,12 @@ class Model:
         elif e["op"] == "reset":
             idx = e["q0"]
             self.counts["recycled"] += 1
+            still_measured = idx in self.measured and idx in self.live and not self.live[idx].startswith("orphan")
             self.apply_reset(idx, e, "reuse")
+            if still_measured:
+                # the index is still some other declaration's qubit, and the program measured that one: from
+                # the program's point of view it stays unusable until it is reset through its own name
+                self.shared_measured = getattr(self, "shared_measured", set()) | {idx}
         else:
             raise Mismatch("C03", "alloc:unexpected", "expected an allocation for %s, saw %s" %
                            (descr, e["op"]))
@@ -1142,6 +1194,8 @@ class Model:
         self.freed.discard(idx)
         self.measured.discard(idx)
         self.last.pop(idx, None)
+        if idx in getattr(self, "shared_measured", ()):
+            self.measured.add(idx)
         return idx
 
     def apply_reset(self, idx, e, path):
